@@ -14,7 +14,13 @@ for f in json.load(open('/verif/known_findings.json'))['findings']:
 P
 fail=0
 while read c p; do
-  if ! git -C $R revert -n $c >/dev/null 2>&1; then echo "$c $p: revert does not apply cleanly (skipped)"; git -C $R revert --abort 2>/dev/null; git -C $R reset -q --hard HEAD; continue; fi
+  if ! git -C $R revert -n $c >/dev/null 2>&1; then
+    # a later commit touched the same lines: revert the later commits on the same files first (newest first), then this one
+    git -C $R revert --abort 2>/dev/null; git -C $R reset -q --hard HEAD
+    later=$(git -C $R log --format=%h $c..HEAD -- $(git -C $R show --name-only --format= $c))
+    if ! git -C $R revert -n $later $c >/dev/null 2>&1; then echo "$c $p: revert does not apply cleanly (skipped)"; git -C $R revert --abort 2>/dev/null; git -C $R reset -q --hard HEAD; continue; fi
+    echo "$c $p: reverted together with later commits on the same files: $later"
+  fi
   out=$(cd /verif && VERIF_REPO=$R ./check $p --tier $TIER --no-evidence 2>&1); rc=$?
   git -C $R revert --abort 2>/dev/null; git -C $R reset -q --hard HEAD
   if [ $rc -eq 1 ] && echo "$out" | grep -q "^VIOLATION property=$p"; then echo "$c $p: RED as expected ($(echo "$out" | grep -c '^VIOLATION') violations)"; else echo "$c $p: NOT detected (exit $rc)"; fail=1; fi
